@@ -21,7 +21,8 @@ FLOORS = {"quick": {"nontrivial": 80, "tags": {("T:" + t): 25 for t in TRANSFORM
 RULE = ("seeded random networks; every case runs the original once and then each of the 10 transformations (applied at seeded "
         "targets by the harness' own table rewriting, not by the toolbox) with the same options; non-trivial = original converged "
         "and at least 6 transformations were compared; distinct = digest of the original inputs + options")
-ASSUMPTIONS = ["both runs use tolerance_mva=1e-8; comparison tolerance 1e-6 p.u. / 1e-5 deg / 1e-5*(1+|S|) MVA",
+ASSUMPTIONS = ["distributed_slack runs: bus angles are compared up to one common offset per island (the angle reference is the first ext_grid in table order)",
+               "both runs use tolerance_mva=1e-8; comparison tolerance 1e-6 p.u. / 1e-5 deg / 1e-5*(1+|S|) MVA",
                "a pair in which both results balance (C01) but one is a low-voltage root is counted as alternate_root, not a violation",
                "bus relabelling rewrites every *_bus column, switch.bus and switch.element of bus-bus switches; element relabelling "
                "rewrites switch.element of the matching et"]
@@ -213,7 +214,18 @@ def compare(orig, new, info, opts, name):
     if nanmis.any():
         viols.append(common.viol("%s: NaN pattern of res_bus differs at buses %s" % (name, list(ob.index[nanmis][:5])), options=opts, transform=name))
         return viols, False
-    dva = np.abs((ob.va_degree.values - nbus.va_degree.values + 180) % 360 - 180)
+    sva = (ob.va_degree.values - nbus.va_degree.values + 180) % 360 - 180
+    if opts.get("distributed_slack"):
+        # with distributed slack only one ext_grid per island is the angle reference (the first in table order); which one is
+        # a matter of representation, so angles are compared up to a common offset per island
+        from ..oracles import graph
+        uf, isb = graph.energized_components(orig)
+        roots = np.array([uf.find(b) if b in isb else -1 for b in ob.index])
+        for r in set(roots):
+            m = (roots == r) & ~np.isnan(sva)
+            if r != -1 and m.any():
+                sva[m] = sva[m] - np.median(sva[m])
+    dva = np.abs(sva)
     ok = ~np.isnan(dvm)
     if ok.any() and (dvm[ok].max() > 1e-6 or dva[ok].max() > 1e-5):
         # alternate root?
